@@ -680,3 +680,13 @@ Theorem C10_grammar_go_in_domain :
   c10_go_recognise Proofs.C10_GOGrammarFile.gg_text = Some 19%nat.
 Proof. exact Proofs.C10_GOGrammarIR2.C10_grammar_go_nonvacuous. Qed.
 Print Assumptions C10_grammar_go_in_domain.
+
+(* the hypothesis of C10_grammar_go on the content key excludes real inputs, and the computable class known_C10_go_grammar does NOT
+   predict them: an algebraic enum with `tag = "kind", content = "type"` is in dom_C10, in no class of known_C10 and in no class of
+   known_C10_go_grammar, its Go struct has the field `type interface{}`, and the recogniser rejects the file (a gap of the finding
+   class C10-go-keyword-name found by the proof of C10_grammar_go) *)
+Theorem C10_go_keyword_content_key_refuted :
+  exists cfg pd text, dom_C10 CGO pd = true /\ known_C10 CGO [] pd = [] /\ known_C10_go_grammar pd = [] /\
+    go_generate uc_exec cfg pd = Ok text /\ contains_sub (lit "type interface{}") text = true /\ c10_go_recognise text = None.
+Proof. exact Proofs.C10_GOGrammarIR2.go_keyword_content_key_refuted. Qed.
+Print Assumptions C10_go_keyword_content_key_refuted.
